@@ -6,11 +6,12 @@ import JugModel.Driver.Lock
 import JugModel.Driver.Store
 import JugModel.Driver.Graph
 import JugModel.Driver.Views
+import JugModel.Driver.Loader
 /-! Line-protocol driver: one JSON object per input line, one JSON answer per output line.
     Imports the executable models only (never `Props`), so it still builds when a proof breaks. -/
 open Lean Jug.Drv
 
-def handlers : List (String → Json → Option Json) := [handleMR, handleOpt, handleHash, handleExec, handleLock, handleStore, handleGraph, handleViews]
+def handlers : List (String → Json → Option Json) := [handleMR, handleOpt, handleHash, handleExec, handleLock, handleStore, handleGraph, handleViews, handleLoader]
 
 def dispatch (j : Json) : Json :=
   let op := getStr j "op"
